@@ -34,7 +34,9 @@ dispatcher has two assertions the real one has not:
 `ResumeAtEndTag w g cfg cs` says that on the chunking `cs` these assertions never fire: the checked rewriter
 returns the same results and writes the same output as the real one. (An assertion that fires makes the
 checked call return a `panic` the real controller's callbacks never return.) The theorems about the real
-rewriter assume it for the runs they mention. It is decidable on concrete runs (examples at the end).
+rewriter assume it for the runs they mention. It is decidable on concrete runs (examples at the end), and a
+theorem for controllers that never return a panic-class error themselves (`Thm/C02_RemovalFinal.lean`,
+`C02_resumeAtEndTag`, from pkg scan's `C06_relex_end_tag` and pkg inv's watermark invariant).
 -/
 namespace LolHtml.Thm.C02
 open LolHtml LolHtml.Model LolHtml.Model.Chunk LolHtml.Model.Chunk.R
